@@ -154,7 +154,7 @@ func runCheck(o checkOpts) (code int) {
 			cl    string
 			multi bool
 		}
-		for li, lv := range []nf{{rootPath, false, "", false}, {rootPath, true, "", false}, {"", false, rootPath, false}, {"", false, replPath, false}, {"all", true, "all", false}, {"all", true, "all", true}} {
+		for li, lv := range []nf{{rootPath, false, "", false}, {rootPath, true, "", false}, {"", false, rootPath, false}, {"", false, replPath, false}, {"all", true, "all", false}, {rootPath, true, "", true}, {replPath, true, "", true}, {"all", true, "all", true}} {
 			level := fmt.Sprintf("functions:%s closures:%s multi:%v", lv.fn, lv.cl, lv.multi)
 			normInline, normInlineStmts, normInlineClosures, normInlineMulti = lv.fn, lv.stmts, lv.cl, lv.multi
 			lineOrigins = map[string][]lineOrigin{}
